@@ -331,6 +331,24 @@ class Inliner:
                     new_test = ast.UnaryOp(op=ast.Not(), operand=new_test)
                 st.test = new_test
                 return pre + [st]
+            # the call as an operand inside the test, evaluated unconditionally (`if f(H(x)):`): hoist it
+            calls = self._calls_in(st.test, h, hcls, ccls, houter)
+            if len(calls) == 1 and not _has(st.test, (ast.IfExp, ast.BoolOp, ast.Lambda, ast.ListComp, ast.SetComp, ast.DictComp, ast.GeneratorExp)):
+                self.k += 1
+                tmp = f"_inl{self.k}"
+                pre = self._expand(calls[0], caller, h, lambda e, r, tmp=tmp: [ast.Assign(targets=[ast.Name(id=tmp, ctx=ast.Store())],
+                                                                                           value=e if e is not None else ast.Constant(None))])
+                if pre is None:
+                    return None
+
+                class R2(ast.NodeTransformer):
+                    def visit_Call(s, n):
+                        if n is calls[0]:
+                            return ast.Name(id=tmp, ctx=ast.Load())
+                        s.generic_visit(n)
+                        return n
+                st.test = R2().visit(st.test)
+                return pre + [st]
             return None
         # the call somewhere inside a simple statement, evaluated unconditionally: hoist it
         if isinstance(st, (ast.Expr, ast.Assign, ast.AugAssign, ast.AnnAssign, ast.Return)):
